@@ -218,8 +218,8 @@ def run_c07(ctx):
     items = []
     for i in range(n):
         # one feature at a time, so that a finding can be attributed to the construct that causes it
-        prof = ["safe", "safe", "char", "names", "kw", "safe", "len"][i % 7]
-        cfg = {"safe": dslgen.Cfg(), "char": dslgen.Cfg(allow_char=True), "names": dslgen.Cfg(odd_names=True), "kw": dslgen.Cfg(),
+        prof = ["safe", "acro", "char", "names", "kw", "safe", "len"][i % 7]
+        cfg = {"safe": dslgen.Cfg(), "char": dslgen.Cfg(allow_char=True), "names": dslgen.Cfg(odd_names=True), "kw": dslgen.Cfg(), "acro": dslgen.Cfg(acronym_packets=True),
                "len": dslgen.Cfg(length_any_target=True)}[prof]
         if prof == "kw":
             saved = list(dslgen.FLD_NAMES)
@@ -247,6 +247,10 @@ def run_c07(ctx):
     am = pipeline.all_kinds_matrix()
     items += [("safe", t) for t in (am if ctx.tier != "quick" else am[::4])]      # every field kind x option combination (quick: every fourth)
     items += [("inl", t) for t in INLINE_NAMES]
+    # packet names with runs of capitals in every position except a match table (see `acro_known` below)
+    items += [("acro", _OPTS + "packet MDEntry {\n    u32 Px,\n    string Sym,\n}\n\npacket Leg {\n    u16 No,\n}\n\nroot packet MarketData {\n    u8 k,\n    repeat MDEntry entries,\n"
+               "    repeat TCPHeader {\n        u16 Port,\n    },\n    repeat Leg legs,\n    MDEntry last,\n    FXLeg {\n        u8 Side,\n    },\n    NoMDEntries,\n}\n\n"
+               "packet NoMDEntries {\n    u16 n,\n    repeat string names,\n}\n")]
     items += [("len", LEN_TARGET % decl) for decl in ("string Body", "u32 Body", "char[4] Body", "repeat u16 Body", "repeat Leg Body", "repeat string Body")]
     texts = [t for _, t in items]
     results = pipeline.run_pipeline(texts, "c07-%s-%d" % (ctx.tier, ctx.seed))
@@ -295,8 +299,16 @@ def run_c07(ctx):
                     slot = pending.setdefault(sig, {})
                     slot.setdefault(status, (what, replay, _l))
                     return True
-                if prof != "safe":
-                    cause = {"char": "char-scalar-unsupported", "names": "names-not-case-stable", "kw": "field-name-is-keyword",
+                acro_known = False
+                if prof == "acro":
+                    # packet names that change under ToCamel (MDEntry -> Mdentry): Go, Rust and C++ use the raw and the converted spelling
+                    # side by side wherever such a packet is declared or referred to (known cause names-not-case-stable); Python does
+                    # so in ONE place only, the register(...) line of a match table; Java in none
+                    unstable = [nm for nm in dslgen.ODD_PKT_NAMES if re.search(r"\b%s\b" % nm, t)]
+                    acro_known = bool(unstable) and (lang in ("go", "rust", "cpp") or
+                                                     (lang == "python" and any(re.search(r":\s*%s\s*,?\s*$" % nm, t, re.M) for nm in unstable)))
+                if prof not in ("safe", "acro") or acro_known:
+                    cause = "names-not-case-stable" if acro_known else {"char": "char-scalar-unsupported", "names": "names-not-case-stable", "kw": "field-name-is-keyword",
                              "len": "length-target-not-a-packet", "inl": "inline-name-not-unique"}[prof]
 
                     def collapsed(sig, what, replay=None, found=True, _c=cause, _l=lang):
@@ -307,7 +319,9 @@ def run_c07(ctx):
                     ctx_finding = collapsed
                 else:
                     ctx_finding = real_finding
-                by_build_only = prof == "inl"
+                # (the validators identify a packet by its DSL name and a struct by its emitted name: with names that change under the
+                # case conversion the two do not meet, so these outputs are decided by the target toolchains as well)
+                by_build_only = prof == "inl" or (prof == "acro" and not acro_known and lang != "lua")
                 if by_build_only:
                     # the wire specification (and with it the extractors' struct tables and the validators) identifies a packet by its
                     # name; a program that uses one name for two objects is outside their domain — decided by the target toolchains alone
